@@ -253,7 +253,8 @@ def r051_array(be, rep):
 def r051_struct(be, rep):
     fn = be.fname
     it = be.interp()
-    res = it.explore(fn, be.args(be.kind_ty('TY_STRUCT'), init_expr=None if be.static else 0))
+    # the list form: no whole-struct initializer expression (that form is judged by r051_struct_expr)
+    res = it.explore(fn, be.args(be.kind_ty('TY_STRUCT'), init_expr=0))
     nfull = 0
     for ctx, out in res:
         if out[0] != 'ret':
@@ -323,6 +324,12 @@ def r051_struct_expr(be, rep, kind='TY_STRUCT', word='struct'):
             used = used or field(r, 'rhs') is e or field(r, 'lhs') is e
             if used:
                 used = field(r, 'kind') == be.E['ND_ASSIGN'] and field(r, 'rhs') is e
+        if be.static and not used:
+            cp = _static_copy(be, it, ctx, out, e)
+            if cp is not None:
+                rep.ob('R05.1', '%s:%s:%s-valued-initializer/%s' % (U, fn, word, 'image-copied' if cp[0] else 'image-copy-' + cp[1]), cp[0],
+                       '%s initialises a static %s from the image of the object named by init->expr, but %s' % (fn, word, cp[2]), where=_w(be.u, fn), facts={'path': ctx.trail[-8:]})
+                continue
         rep.ob('R05.1', '%s:%s:%s-valued-initializer/%s' % (U, fn, word, 'used' if used else 'ignored'), used,
                ('%s ignores init->expr of a %s: `static %s S s = (%s S){1, 2};` (or any %s-valued initializer expression) is accepted '
                 'without a diagnostic and the object silently keeps the zero fill, while the automatic back end assigns the expression' % (fn, word, word, word, word)) if be.static else
@@ -331,6 +338,55 @@ def r051_struct_expr(be, rep, kind='TY_STRUCT', word='struct'):
                where=_w(be.u, fn), facts={'path': ctx.trail[-6:]})
     if n == 0:
         rep.undecided('R05.1', '%s:%s:%s-valued-initializer' % (U, fn, word), 'no path')
+
+
+def _static_copy(be, it, ctx, out, e):
+    """write_gvar_data honours a struct/union-valued initializer expression by copying the already computed image of the object the
+    expression names (a file-scope compound literal). None = no such copy on this path; else (ok, construct, what is wrong)"""
+    cps = [ev for ev in ctx.events if ev[0] == 'call' and ev[1] in ('memcpy', 'memmove') and len(ev[2]) == 3]
+    if not cps:
+        return None
+    var = field(e, 'var')
+    src = field(var, 'init_data') if isinstance(var, Obj) else None
+    mine = [ev for ev in cps if src is not None and ev[2][1] is src]
+    if len(mine) != 1 or len(cps) != 1:
+        return False, 'source', 'the bytes are not copied (once) from expr->var->init_data'
+    a = mine[0][2]
+    if field(e, 'kind') != be.E.get('ND_VAR'):
+        return False, 'source', 'init->expr is not known to be a variable reference when its var is used'
+    if field(var, 'is_local') != 0:
+        return False, 'source-may-be-local', 'the object may be a local variable (no static image)'
+    if not lin_eq(a[0], lsum(ctx.p_buf, ctx.p_off)):
+        return False, 'destination', 'the bytes go to %s, not to buf + offset' % show(a[0])
+    if not same(it, a[2], field(ctx.root_ty, 'size')) or 'size' not in ctx.root_ty.fields:
+        return False, 'length', '%s bytes are copied, not ty->size' % show(a[2])
+    # the relocations of the source image, shifted by the offset of the sub-object, appended behind the cursor in order
+    srcs = []
+    v = field(var, 'rel')
+    while True:
+        if v is None or isinstance(v, View):
+            return False, 'relocations-not-walked', 'the relocation list of the source object is not walked to its end: pointer members of the copy are emitted as NULL'
+        if is_null(v):
+            break
+        if not isinstance(v, Obj) or len(srcs) > 8:
+            return False, 'relocations-not-walked', 'the relocation list of the source object is not interpretable'
+        srcs.append(v)
+        v = field(v, 'next')
+    cur = ctx.p_cur
+    for i, r in enumerate(srcs):
+        n = field(cur, 'next')
+        if not isinstance(n, Obj) or n.lazy or n in srcs:
+            return False, 'relocation-not-copied', 'relocation #%d of the source image is not copied into a fresh relocation linked behind the cursor (sharing the node would splice the source list)' % i
+        if 'offset' not in r.fields or not lin_eq(n.fields.get('offset', 0), lsum(r.fields['offset'], ctx.p_off)):
+            return False, 'relocation-offset', 'copied relocation #%d is recorded at %s, expected the source offset plus the offset of the sub-object' % (i, show(n.fields.get('offset', 0)))
+        if 'label' not in r.fields or n.fields.get('label', 0) is not r.fields['label'] or 'addend' not in r.fields or n.fields.get('addend', 0) is not r.fields['addend']:
+            return False, 'relocation-target', 'copied relocation #%d does not carry label and addend of the source relocation' % i
+        cur = n
+    if not is_null(settle(it, cur.fields.get('next', 0))) and srcs:
+        return False, 'relocation-list-end', 'the last copied relocation does not end the list'
+    if settle(it, out[1]) is not cur:
+        return False, 'cursor', 'the returned relocation cursor is not the last relocation appended'
+    return True, '', ''
 
 
 def r051_union(be, rep):
@@ -669,7 +725,7 @@ def run(P, rep, tier):
     r053(P, u, E, rep)
     r056(P, u, E, cat, rep)
     r059(P, u, E, cat, rep)
-    r0510(P, u, E, rep)
+    r0510(P, u, E, rep, copies)
     r0511(P, u, E, cat, rep)
     r0512(P, u, E, rep)
 
@@ -1640,9 +1696,8 @@ def r051_copy(P, u, E, rep):
 
         def m_assign(it, ctx, n, a, kind=kind):
             node = Obj('Node', lazy=True, label='%s-valued-expr' % kind[3:].lower())
-            ty = Obj('Type', lazy=True, label='expr.ty')
-            ty.fields['kind'] = E[kind]
-            node.fields['ty'] = ty
+            # an expression of the SAME type as the object: its type is the object's type
+            node.fields['ty'] = ctx.root_init.fields['ty']
             _set_rest(it, ctx, a[0], 'tok-after-expr')
             ctx.emit('assign', node, n.line)
             return node
@@ -2098,7 +2153,8 @@ def _may_be(it, v, o):
     return v is o
 
 
-def r0510(P, u, E, rep):
+def r0510(P, u, E, rep, copies=None):
+    union_copies = bool(copies and copies.get('union'))     # the parser produces whole-union copy expressions (init->expr on a union)
     rep.rule('R05.10', 'a later initializer of the same sub-object overrides the earlier one: after an initializer has been parsed for a node, its selected union member / '
              'scalar expression / whole-struct copy expression are those of THIS initializer, whatever an earlier one left in the node', floor=7)
     fn = 'initializer2'
@@ -2116,8 +2172,20 @@ def r0510(P, u, E, rep):
         first = field(field(init, 'ty'), 'members') if isinstance(field(init, 'ty'), Obj) else None
         where = _w(u, 'union_initializer')
         form = 'designated' if des else 'plain'
+        asg = [e for e in ctx.events if e[0] == 'assign']
+        ex = init.fields.get('expr')
+        if asg and not subs and not des and settle(it, ex) is asg[-1][1]:
+            # `= y` with y of the union type: the whole object is copied from the expression parsed now; both back ends test init->expr
+            # before init->mem (R05.1 union-valued-initializer/used), so the member selection is irrelevant on this path
+            rep.ob('R05.10', '%s:%s:union/union-valued-expression-parsed-now-is-kept' % (U, fn), True, '', where=where)
+            continue
         seen.add(form)
         key = '%s:%s:union/%s-initializer' % (U, fn, form)
+        if union_copies and not is_null(settle(it, ex)):
+            rep.ob('R05.10', key + '/earlier-copy-survives', False,
+                   'a %s union initializer does not cancel the whole-union copy expression left by an EARLIER initializer of the same sub-object (init->expr stays set): both back ends '
+                   'then emit the earlier union value and ignore the later initializer, e.g. `union U a[1] = {[0] = y, [0] = {7}};`' % form, where=where, facts={'path': ctx.trail})
+            continue
         if _may_be(it, mem, ctx.stale_mem):
             rep.ob('R05.10', key + '/earlier-member-selection-survives', False,
                    ('a %s union initializer leaves init->mem on the member selected by an EARLIER initializer of the same union sub-object: in `{[0 ... 3] = {.b = 1}, [1] = {7}}` '
@@ -2161,6 +2229,11 @@ def r0510(P, u, E, rep):
         mem = init.fields.get('mem')
         where = _w(u, 'designation')
         key = '%s:designation:union/member-designator' % U
+        if union_copies and not is_null(settle(it, init.fields.get('expr'))):
+            rep.ob('R05.10', key + '/earlier-copy-survives', False,
+                   'a nested `.m = v` designator into a union does not cancel the whole-union copy expression left by an earlier initializer (`.u = y, .u.m = 1`): the member value is ignored',
+                   where=where, facts={'path': ctx.trail})
+            continue
         if _may_be(it, mem, ctx.stale_mem):
             rep.ob('R05.10', key + '/earlier-member-selection-survives', False,
                    'a nested `.m = v` designator into a union leaves init->mem on the member selected by an earlier initializer: the later designator does not override', where=where, facts={'path': ctx.trail})
